@@ -657,10 +657,18 @@ func ruleErrChain(c *Ctx) {
 							}
 						}
 					case *ssa.Call:
+						// the refusal of a container on the path to take the parent created for it:
+						// that parent location cannot be reached
+						if y.Call.IsInvoke() && (isContainerInvoke(&y.Call, "add") || isContainerInvoke(&y.Call, "set")) {
+							from = "container." + y.Call.Method.Name()
+							return
+						}
 						for _, a := range y.Call.Args {
 							walk(a, d+1)
 						}
 					case *ssa.MakeInterface:
+						walk(y.X, d+1)
+					case *ssa.ChangeInterface:
 						walk(y.X, d+1)
 					case *ssa.UnOp:
 						if al, ok := y.X.(*ssa.Alloc); ok {
@@ -843,7 +851,7 @@ func ruleErrChain(c *Ctx) {
 					for _, fn := range b.srcFuncs(b.Lib) {
 						for _, cs := range callsTo(fn, func(cc *ssa.CallCommon) bool { return cc.StaticCallee() == ct }) {
 							sites = append(sites, fname(fn)+"@"+b.posOf(cs))
-							if fn != copyH {
+							if fn != copyH && !b.onlyCalledFrom(fn, copyH) {
 								bad = "constructor " + fname(ct) + " is called from " + fname(fn) + " at " + b.posOf(cs)
 							}
 						}
@@ -1008,6 +1016,7 @@ func ruleNullSpell(c *Ctx) {
 		nullSpellComparison(c, b)
 		nullSpellHandler(c, b)
 		nullProbes(c, b)
+		b.textlessNullOnlyWhenRaw(c.L)
 	}
 }
 
@@ -1553,4 +1562,30 @@ func (b *Body) behindExhaustedTypeSwitch(blk *ssa.BasicBlock) string {
 		}
 	}
 	return ""
+}
+
+// onlyCalledFrom: fn is an unexported library function that is never used as a value and whose
+// every call sits in `from` (the budget method of the copy handler, say).
+func (b *Body) onlyCalledFrom(fn, from *ssa.Function) bool {
+	if fn == nil || from == nil || token.IsExported(fn.Name()) {
+		return false
+	}
+	n := 0
+	ok := true
+	for _, g := range b.srcFuncs(b.Lib) {
+		allInstrs(g, func(i ssa.Instruction) {
+			for _, op := range i.Operands(nil) {
+				if *op != ssa.Value(fn) {
+					continue
+				}
+				ci, isCall := i.(ssa.CallInstruction)
+				if !isCall || ci.Common().Value != ssa.Value(fn) || g != from {
+					ok = false
+					continue
+				}
+				n++
+			}
+		})
+	}
+	return ok && n > 0
 }
